@@ -36,6 +36,9 @@ CHECKS["C06"] = dict(technique="batched differential runtime monitor (bash refer
 CHECKS["C05"] = dict(technique="batched differential runtime monitor (bash reference): grammar of word pieces x variable environments x IFS modes in identical directory trees; external argv dumper",
    text="Words of 1-4 pieces (literals with glob characters, quotes, $v, $@/$*, arrays quoted and not, $( ), backquotes, $(( )), braces, tildes, multi-component globs, defaults/alternates with nested words) are expanded by the real brush and by bash under IFS in {unset, default, space, newline, empty}, v over 14 values (unset, empty, blank-padded, multi-field, glob-like, brace-like), positional/array lists incl. empty elements, in a tree with dot-files, dot-directories and names with spaces; the argument list received by an external process and $# after `set --` must agree.",
    note="bash 5.2.15 reference; open findings fenced: brace expansion under IFS=/newline, tilde x brace, empty brace alternatives, \"$*\" under empty IFS (known-failure test in the repo), ${@:-w} on lists of several empty strings (C05-F1..F6)", ref="5 C05")
+CHECKS["C13"] = dict(technique="definitional round-trip oracle at the process boundary: values injected via environment, 14 quoting producers run by brush, text re-read through eval by brush and by bash, recovered bytes observed by an external argv dumper",
+   text="Every string up to length 2 (quick) / a 9000-value sample of length 3 plus all of length 2 (thorough) over a 30-symbol quoting alphabet, and random strings to length 40, used as scalar value, array element, associative key and value, alias body and trap command; producers printf %q, ${v@Q}, ${a[*]@Q}, ${v@A}, declare -p (scalar, exported, -a, -A), set, export -p, the set -x trace, ${m[@]@K}, alias, trap -p; each produced text is given back to eval in word or assignment position in brush and in bash and must recreate the injected bytes.",
+   note="NUL excluded; alias/trap -p judged through the reader's own printer; open findings: trap -p single quotes and @K (both mirrored by known-failure tests in the repository)", ref="5 C13")
 NA = {}
 
 def main():
